@@ -262,7 +262,20 @@ def r3_annotation(ctx):
     ctx.ob(rule, n3, 'annotates the list generated for the same player and board', okc, expected='generate_moves(board, player); update(moves, board, player)')
 
 
+def r5_attack_cache(ctx):
+    # the attack map used by every verdict is served from a cache: its key must cover position and colour (= C02.R1)
+    from . import c02
+    sub = type(ctx)(ctx.prop, ctx.tier, ctx.facts, ctx.facts_info, ctx.seed)
+    c02.r1_key_composition(sub)
+    for s in sub.samples:
+        if 'get_attack_targets' in s['function']:
+            ctx.ob('C06.R5-attack-cache-key', s['function'], s['instance'], s['ok'], found=s['found'], expected=s['expected'],
+                   why='a long-lived generator must answer in-check queries for one colour independently of earlier queries for the other',
+                   nontrivial='floor' not in s['instance'])
+
+
 def run(ctx):
+    r5_attack_cache(ctx)
     r1_in_check(ctx)
     draw_rows, name = r2_tables(ctx)
     r3_annotation(ctx)
